@@ -200,7 +200,8 @@ ITEMS = [
     dict(src=SRC, kind='fn', name='new', within_impl=U8I, contract=dict(ret='r', spec=ENC_NEW)),
     dict(src=SRC, kind='fn', name='next_char', within_impl=U8I, contract=dict(ret='r', spec=NEXT_CHAR)),
     dict(src=SRC, kind='fn', name='read', within_impl=U8R,
-         contract=dict(ret='r', spec=ENC_READ, prologue=READ_PROLOGUE,
+         contract=dict(ret='r', spec=ENC_READ, prologue=READ_PROLOGUE, attrs=['#[verifier::rlimit(60)]'],   # headroom: a harmless edit must not tip the query over the default limit
+                      
                        loops=[dict(ordinal=0, kind='while', clauses=LOOP0_INV), dict(ordinal=1, kind='while', clauses=LOOP1_INV)],
                        inserts=[dict(after=r'let\s+len\s*=\s*self\s*\.\s*remainder\s*\.\s*read\s*\(\s*buf\s*\)\s*\?\s*;', text=AFTER_REM_READ),
                                 dict(after=r'let\s+len\s*=\s*ch\s*\.\s*encode_utf8\s*\(\s*buf\s*\)\s*\.\s*len\s*\(\s*\)\s*;', text=AFTER_ENC0),
